@@ -11,7 +11,7 @@
    feedback for the empty range of a FIN-only frame is the identity.
    [rc_got] = every byte handed to the reader, [rc_eos] = the reader was told the stream ended. *)
 From Coq Require Import List NArith ZArith.
-From GQ Require Import Lib.Base Model.SendBuf Model.RecvBuf Model.Streams Proofs.Streams Proofs.StreamsSys Proofs.StreamsLive Proofs.StreamsRound.
+From GQ Require Import Lib.Base Model.SendBuf Model.RecvBuf Model.Streams Proofs.Streams Proofs.StreamsSys Proofs.StreamsLive Proofs.StreamsRound Proofs.StreamsWake.
 Import ListNotations.
 Local Open Scope N_scope.
 
@@ -148,6 +148,48 @@ Theorem c01_done_reads : forall c fl P room fl' P',
   rc_got (fl_rcv fl') = written_bytes c fl' /\ (sn_shutcalled (fl_snd fl') = true -> rc_eos (fl_rcv fl') = true).
 Proof. exact p_c01_done_reads. Qed.
 
+(* ---- no lost wake-up (the application's side of "eventually becomes readable"): a task that was told Pending by
+   Reader::poll_read runs again only when the waker it parked is woken.  In every reachable state, for any
+   interleaving whatsoever, a parked reader waker ([rc_readw]) coexists only with a stream on which poll_read
+   still answers Pending: as soon as bytes, the end of the stream or a reset can be read - however they got
+   there: fresh data, a retransmission filling a hole below the highest received offset, the FIN, the last
+   hole of a stream of known size, a RESET_STREAM - the waker has been taken and woken.  And the waker is never
+   dropped silently: each operation leaves a parked reader parked or wakes it exactly once. *)
+Theorem c01_no_lost_wakeup : forall c fl P room r' z out,
+  flow_reach c fl P -> rc_readw (fl_rcv fl) = true ->
+  rc_poll_read (fl_rcv fl) room = (r', z, out) -> z = 0%Z /\ out = [] /\ rc_readw r' = true.
+Proof. exact p_c01_no_lost_wakeup. Qed.
+
+Theorem c01_wake_or_parked : forall c fl o fl' new out,
+  flow_step c fl o = (fl', new, out) ->
+  (rc_readw (fl_rcv fl) = true ->
+     (rc_readw (fl_rcv fl') = true /\ rc_wakes (fl_rcv fl') = rc_wakes (fl_rcv fl)) \/
+     (rc_readw (fl_rcv fl') = false /\ rc_wakes (fl_rcv fl') = rc_wakes (fl_rcv fl) + 1)) /\
+  (rc_readw (fl_rcv fl) = false -> rc_wakes (fl_rcv fl') = rc_wakes (fl_rcv fl)).
+Proof. exact p_c01_wake_or_parked. Qed.
+
+Theorem c01_no_lost_wakeup_system : forall rot w dirs ops key fl room r' z out,
+  StreamCtl.alookup (sy_flows (sys_exec (sys_init rot w dirs) ops)) key = Some fl ->
+  rc_readw (fl_rcv fl) = true ->
+  rc_poll_read (fl_rcv fl) room = (r', z, out) -> z = 0%Z /\ out = [] /\ rc_readw r' = true.
+Proof. exact p_c01_no_lost_wakeup_system. Qed.
+
+(* non-vacuity: the second of two frames overtakes the first, the reader polls and parks on the hole (no FIN);
+   the first frame then fills the hole BELOW the highest received offset (0 fresh bytes for flow control):
+   the parked reader is woken by that very delivery and the stream is readable *)
+Definition parked_ops : list op :=
+  [OWrite 0 0 56; OEmit 0 30 30; OEmit 0 30 30; ODeliver 1; ORead 1 0 7].
+
+Example c01_no_lost_wakeup_nonvacuous :
+  (match StreamCtl.alookup (sy_flows (sys_exec (sys_init false 1048576 [0]) parked_ops)) 0 with
+   | Some fl => rc_readw (fl_rcv fl) = true /\ rc_wakes (fl_rcv fl) = 0 /\ largest (rc_buf (fl_rcv fl)) = 55
+   | None => False end) /\
+  (match StreamCtl.alookup (sy_flows (sys_exec (sys_init false 1048576 [0]) (parked_ops ++ [ODeliver 0]))) 0 with
+   | Some fl => rc_readw (fl_rcv fl) = false /\ rc_wakes (fl_rcv fl) = 1 /\ is_readable (rc_buf (fl_rcv fl)) = true
+   | None => False end) /\
+  nth 5 (sys_run (sys_init false 1048576 [0]) (parked_ops ++ [ODeliver 0])) [] = [0; 0; 1; 0; 0]%Z.
+Proof. vm_compute. repeat split. Qed.
+
 (* ---- the two endpoints: a schedule with two streams, chunked writes, small packets, a lost frame that
    is retransmitted at different boundaries, FIN delivered before data, duplicates, acks after loss, and
    then the fair round (lose all, emit until drained, deliver all, ack all): everything written is read,
@@ -212,5 +254,9 @@ Print Assumptions c01_progress.
 Print Assumptions c01_progress_system.
 Print Assumptions c01_round_calm.
 Print Assumptions c01_done_reads.
+Print Assumptions c01_no_lost_wakeup.
+Print Assumptions c01_wake_or_parked.
+Print Assumptions c01_no_lost_wakeup_system.
+Print Assumptions c01_no_lost_wakeup_nonvacuous.
 Print Assumptions c01_progress_instance.
 Print Assumptions c01_progress_nonvacuous.
